@@ -213,6 +213,8 @@ type c19Read struct {
 	errs    []string // per call: "" nil, "e" io.EOF, "x" other
 	outcome string   // "", "panic", "hang", "err" (Seq/SeqRange refused)
 	frame   string
+	again   []byte // everything read after Reset (one big buffer per call)
+	againOK bool   // the second pass ended with io.EOF
 }
 
 func (r c19Read) String() string {
@@ -262,6 +264,20 @@ func c19DoRead(data []byte, idx fai.Index, name string, whole bool, start, end i
 				local.errs = append(local.errs, "")
 			case io.EOF:
 				local.errs = append(local.errs, "e")
+				// Reset and read the segment again
+				s.Reset()
+				big := make([]byte, 1<<16)
+				for j := 0; j < limit; j++ {
+					n, err := s.Read(big)
+					local.again = append(local.again, big[:n]...)
+					if err == io.EOF {
+						local.againOK = true
+						break
+					}
+					if err != nil {
+						break
+					}
+				}
 				return
 			default:
 				local.errs = append(local.errs, "x")
@@ -558,6 +574,9 @@ func c19JudgeRead(r *Result, got c19Read, want string, cls string, ri c19Input) 
 		}
 		if len(got.errs) == 0 || got.errs[len(got.errs)-1] != "e" {
 			r.fail("fai.read.noeof"+cls, "the read sequence does not end with io.EOF", ri)
+		}
+		if len(got.errs) > 0 && got.errs[len(got.errs)-1] == "e" && (string(got.again) != want || !got.againOK) {
+			r.fail("fai.reset"+cls, fmt.Sprintf("after Reset read %q (EOF %v), want %q", c19Trunc(string(got.again)), got.againOK, c19Trunc(want)), ri)
 		}
 		for i, n := range got.counts {
 			if n == 0 && got.errs[i] == "" {
